@@ -42,6 +42,11 @@ type Transfer struct {
 	Env      *rsyncos.Env
 	Progress progress.Printer
 
+	// Protect, if non-nil, reports whether the destination entry with the
+	// specified name is excluded by the user's filter rules: --delete leaves
+	// such entries alone.
+	Protect func(name string) bool
+
 	// state
 	Conn            *rsyncwire.Conn
 	Seed            int32
